@@ -201,30 +201,65 @@ class _RenameLocals(ast.NodeTransformer):
         if fn.args.kwarg:
             params.add(fn.args.kwarg.arg)
         stores = set()
-        inner_defs = set()
-        for n in ast.walk(fn):
+
+        def own_scope(n):
+            for ch in ast.iter_child_nodes(n):
+                if isinstance(ch, (ast.FunctionDef, ast.AsyncFunctionDef, ast.Lambda, ast.ClassDef)):
+                    continue
+                yield ch
+                yield from own_scope(ch)
+        for n in own_scope(fn):
             if isinstance(n, ast.Name) and isinstance(n.ctx, ast.Store):
                 stores.add(n.id)
-            if isinstance(n, (ast.FunctionDef, ast.Lambda)) and n is not fn:
-                inner_defs.add(id(n))
             if isinstance(n, (ast.Global, ast.Nonlocal)):
                 params |= set(n.names)
         self.names = {s for s in stores if s not in params and not s.startswith("__")}
         self.fn = fn
+        self.shadow: list = []
 
     def visit_Name(self, node: ast.Name):
-        if node.id in self.names:
+        if node.id in self.names and not any(node.id in sh for sh in self.shadow):
             node.id = node.id + "_rn"
+        return node
+
+    @staticmethod
+    def _own_names(node) -> set:
+        a = node.args
+        own = {x.arg for x in a.posonlyargs + a.args + a.kwonlyargs}
+        if a.vararg:
+            own.add(a.vararg.arg)
+        if a.kwarg:
+            own.add(a.kwarg.arg)
+        if not isinstance(node, ast.Lambda):
+            nonlocal_ = set()
+            for n in ast.walk(node):
+                if isinstance(n, (ast.Global, ast.Nonlocal)):
+                    nonlocal_ |= set(n.names)
+            for n in ast.walk(node):
+                if isinstance(n, ast.Name) and isinstance(n.ctx, ast.Store) and n.id not in nonlocal_:
+                    own.add(n.id)
+        return own
+
+    def _scoped(self, node):
+        # a closure reads the renamed locals of its definer, unless it shadows them
+        self.shadow.append(self._own_names(node))
+        self.generic_visit(node)
+        self.shadow.pop()
         return node
 
     def visit_FunctionDef(self, node):
         if node is self.fn:
             self.generic_visit(node)
             return node
-        # nested defs: their parameters shadow; keep it simple and do not descend
-        return node
+        return self._scoped(node)
 
     def visit_Lambda(self, node):
+        return self._scoped(node)
+
+    def visit_ClassDef(self, node):
+        self.shadow.append({n.id for n in ast.walk(node) if isinstance(n, ast.Name) and isinstance(n.ctx, ast.Store)})
+        self.generic_visit(node)
+        self.shadow.pop()
         return node
 
 
